@@ -565,6 +565,30 @@ fn run_neighbours(cx: &mut CaseCx, _case: &Value) {
       }
     }
   }
+  // LONG inputs that agree on a long prefix (or suffix): an input silently clamped, chunked or sampled at some
+  // length N gives equal contexts to every pair that agrees on its first N bytes - one pair with a common prefix
+  // of 100000 bytes decides it for every N up to there; the shorter ones name the smallest failing length
+  {
+    let before = pairs.len();
+    for l in [40usize, 64, 128, 166, 167, 200, 256, 512, 1000, 1024, 1500, 2048, 4096, 10_000, 65_536, 100_000] {
+      let base = prbytes(0xC04 + l as u64, l);
+      let mut last_flipped = base.clone();
+      last_flipped[l - 1] ^= 0x01;
+      let mut first_flipped = base.clone();
+      first_flipped[0] ^= 0x80;
+      let mut middle_flipped = base.clone();
+      middle_flipped[l / 2] ^= 0x10;
+      let longer = [&base[..], &[0u8][..]].concat();
+      let longer2 = [&base[..], &base[..7]].concat();
+      for (how, other) in [("last byte differs", last_flipped), ("first byte differs", first_flipped), ("middle byte differs", middle_flipped), ("one zero byte appended", longer), ("seven bytes appended", longer2)] {
+        for t in [2u32] {
+          pairs.push(((base.clone(), b"e".to_vec(), t), (other.clone(), b"e".to_vec(), t), format!("measurement of {} bytes: {}", l, how)));
+          pairs.push(((m0.clone(), base.clone(), t), (m0.clone(), other.clone(), t), format!("epoch of {} bytes: {}", l, how)));
+        }
+      }
+    }
+    cx.count("long_common_part_pairs", (pairs.len() - before) as u64);
+  }
   pairs.retain(|(a, b, _)| a != b);
   cx.count("framing_pairs", pairs.iter().filter(|p| p.2.contains("splits two ways")).count() as u64);
   let _ = framing_pairs;
@@ -897,10 +921,10 @@ pub fn spec() -> PropSpec {
       },
       Check {
         name: "neighbour-contexts",
-        rule: "for 11 base strings (text, padded, accented, invalid UTF-8, binary counters, empty) every NEIGHBOUR a canonicalisation could merge with it (each single-bit flip of the first 12 bytes, 11 bytes appended / prepended, first / last byte dropped, reversed, doubled, ASCII case folding, BOM, U+FFFD, lossy UTF-8 conversion, hex form, NFC/NFD, trimming; empty-vs-epoch and swapped components), as measurement and as epoch, t in {1,3}; and every pair (epoch || prefix, t1) / (epoch, t2) with prefix || enc(t1) == enc(t2) for the variable-width encodings LEB128, decimal, minimal LE/BE, hexadecimal: randomness, tag and key of the two triples differ",
+        rule: "for 11 base strings (text, padded, accented, invalid UTF-8, binary counters, empty) every NEIGHBOUR a canonicalisation could merge with it (each single-bit flip of the first 12 bytes, 11 bytes appended / prepended, first / last byte dropped, reversed, doubled, ASCII case folding, BOM, U+FFFD, lossy UTF-8 conversion, hex form, NFC/NFD, trimming; empty-vs-epoch and swapped components), as measurement and as epoch, t in {1,3}; and every pair (epoch || prefix, t1) / (epoch, t2) with prefix || enc(t1) == enc(t2) for the variable-width encodings LEB128, decimal, minimal LE/BE, hexadecimal: randomness, tag and key of the two triples differ; LONG measurements / epochs of 40 .. 100000 bytes (16 lengths) against a twin that differs in the last, first or middle byte or is 1 / 7 bytes longer (an input clamped, chunked or sampled at any length N <= 100000 makes such twins collide)",
         gen: |_| vec![json!({})],
         run: run_neighbours,
-        min_counts: &[("evaluations", 2000), ("framing_pairs", 30)],
+        min_counts: &[("evaluations", 2000), ("framing_pairs", 30), ("long_common_part_pairs", 150)],
       },
       Check {
         name: "output-buffers",
